@@ -54,6 +54,12 @@ Lemma wrap_if_noelse n rho c a v ps k :
   eval_t bs (3 + n) rho (Term (TIf c a [] None) []) v ps k.
 Proof. reflexivity. Qed.
 
+(* R5 on an `if` without else: the missing branch is the identity (the rewrite makes it explicit) *)
+Lemma if_explicit_else n rho c a v ps k :
+  eval_t bs (3 + n) rho (Term (TIf c a [] (Some q_identity)) []) v ps k =
+  eval_t bs (3 + n) rho (Term (TIf c a [] None) []) v ps k.
+Proof. reflexivity. Qed.
+
 (* R1: elements of an array literal, values of an object literal *)
 Lemma wrap_array1 n rho a v ps k :
   eval_t bs (6 + n) rho (Term (TArray (Some (wrap a))) []) v ps k =
